@@ -364,4 +364,12 @@ def openTable (file : Bytes) : Except Err (XMap × List (Bytes × Obj)) :=
         if (tr.any fun e => e.1 == [80, 114, 101, 118] || e.1 == [88, 82, 101, 102, 83, 116, 109]) then .error .other
         else .ok (m, tr)
 
+/-! ### the effective version of a file (`NewReader`) -/
+
+/-- `MetaInfo.Version` after `NewReader`: the header version, raised by a catalog `/Version`
+    which is larger (`if Catalog.Version > Version { Version = Catalog.Version }`); `c = 0` stands
+    for a catalog without `/Version`.  Versions are numbered as in `meta.go` (`Gen.fio_V1_0` …). -/
+def effectiveVersion (header catalog : Nat) : Nat :=
+  if catalog > header then catalog else header
+
 end PdfVerif.FIO
